@@ -91,6 +91,17 @@ impl TreeOp {
             _ => return None,
         })
     }
+    /// like `to_json`, with long value / removal lists abbreviated (for messages; cases keep the full form)
+    pub fn brief(&self) -> Value {
+        let short = |v: &Vec<u8>| if v.len() > 12 { json!(format!("{:?}.. ({} values)", &v[..4], v.len())) } else { json!(v) };
+        let shortr = |v: &Vec<u64>| if v.len() > 12 { json!(format!("{:?}.. ({} positions, last {})", &v[..3], v.len(), v[v.len() - 1])) } else { json!(v) };
+        match self {
+            TreeOp::Range(s, vs) => json!({"op":"Range","start":s,"values":short(vs)}),
+            TreeOp::Batch(s, vs, r) => json!({"op":"Batch","start":s,"values":short(vs),"remove":shortr(r)}),
+            TreeOp::Init(vs) => json!({"op":"Init","values":short(vs)}),
+            _ => self.to_json(),
+        }
+    }
     pub fn is_batch(&self) -> bool {
         matches!(self, TreeOp::Batch(..) | TreeOp::Init(..))
     }
@@ -1007,7 +1018,7 @@ pub fn judge(c: &CaseCtx, pre: &IdealTree, op: &TreeOp, outcome: &Outcome, be: &
         let mut seen = BTreeSet::new();
         for (s, d) in &all {
             if owned(c.focus, s) && seen.insert(s.clone()) {
-                owned_ds.push(Discrepancy { key: format!("{prefix}/{s}"), case: case_json(c, op), detail: format!("after {} on a {} tree of depth {} (history length {}): {}", op.to_json(), c.kind.name(), c.depth, c.hist.len(), d) });
+                owned_ds.push(Discrepancy { key: format!("{prefix}/{s}"), case: case_json(c, op), detail: format!("after {} on a {} tree of depth {} (history length {}): {}", op.brief(), c.kind.name(), c.depth, c.hist.len(), d) });
             }
         }
     }
@@ -1144,6 +1155,8 @@ pub struct ExploreCfg {
     pub max_len: usize,
     pub positions: Vec<u64>,
     pub full_obs: bool,
+    /// optional restriction of the histories: (history so far, next operation) -> explored?
+    pub allow: Option<fn(&[TreeOp], &TreeOp) -> bool>,
     pub label: String,
 }
 
@@ -1224,6 +1237,11 @@ pub fn explore(cfg: &ExploreCfg, findings: &Findings, deadline: Option<std::time
         let mut items: Vec<(usize, usize, Kind)> = vec![];
         for (ni, node) in frontier.iter().enumerate() {
             for oi in 0..cfg.ops.len() {
+                if let Some(allow) = cfg.allow {
+                    if !allow(&node.hist, &cfg.ops[oi]) {
+                        continue;
+                    }
+                }
                 for (kind, maxlen) in &cfg.backends {
                     if level <= *maxlen && node.alive.contains(kind) {
                         items.push((ni, oi, *kind));
@@ -1565,7 +1583,7 @@ impl TreeProp {
             plans.push(ExploreCfg {
                 focus: f, depth: 1, ops,
                 backends: vec![(Kind::Full, 12), (Kind::Optimal, 12), (Kind::Pm, pl), (Kind::Rln, pl)],
-                nodedup_len: 2, max_len: 12, positions: all(1), full_obs: true, label: "depth1.values-ab".into(),
+                nodedup_len: 2, max_len: 12, positions: all(1), full_obs: true, allow: None, label: "depth1.values-ab".into(),
             });
         }
         // depth 2: two non-default values
@@ -1575,7 +1593,7 @@ impl TreeProp {
             plans.push(ExploreCfg {
                 focus: f, depth: 2, ops,
                 backends: vec![(Kind::Full, 12), (Kind::Optimal, 12), (Kind::Pm, pl), (Kind::Rln, pl)],
-                nodedup_len: 2, max_len: if q { 3 } else { 12 }, positions: all(2), full_obs: true, label: "depth2.values-ab".into(),
+                nodedup_len: 2, max_len: if q { 3 } else { 12 }, positions: all(2), full_obs: true, allow: None, label: "depth2.values-ab".into(),
             });
         }
         if q {
@@ -1616,7 +1634,7 @@ impl TreeProp {
             plans.push(ExploreCfg {
                 focus: f, depth: 2, ops,
                 backends: vec![(Kind::Pm, 2), (Kind::Rln, 2)],
-                nodedup_len: 2, max_len: 2, positions: all(2), full_obs: true, label: "depth2.reduced-alphabet.persistent".into(),
+                nodedup_len: 2, max_len: 2, positions: all(2), full_obs: true, allow: None, label: "depth2.reduced-alphabet.persistent".into(),
             });
         }
         // depth 3: one non-default value to a deeper bound, two values to a shallower one
@@ -1625,7 +1643,7 @@ impl TreeProp {
             focus: f, depth: 3, ops: ops3a,
             backends: vec![(Kind::Full, 12), (Kind::Optimal, 12), (Kind::Pm, if q { 1 } else { 2 }), (Kind::Rln, if q { 1 } else { 2 })],
             nodedup_len: 2, max_len: if q { 2 } else { 4 },
-            positions: all(3), full_obs: true, label: "depth3.value-a".into(),
+            positions: all(3), full_obs: true, allow: None, label: "depth3.value-a".into(),
         });
         let ops3b = alphabet(3, &[1, 2], with_batch, with_plain, &extra);
         // (quick tier: the two-value depth-3 plan only where the alphabet is small; the one-value plan above and the
@@ -1635,7 +1653,7 @@ impl TreeProp {
             focus: f, depth: 3, ops: ops3b,
             backends: vec![(Kind::Full, 12), (Kind::Optimal, 12), (Kind::Pm, 1), (Kind::Rln, 1)],
             nodedup_len: 2, max_len: if q { 2 } else { 3 },
-            positions: all(3), full_obs: true, label: "depth3.values-ab".into(),
+            positions: all(3), full_obs: true, allow: None, label: "depth3.values-ab".into(),
         });
         }
         if !q {
@@ -1665,7 +1683,7 @@ impl TreeProp {
                 plans.push(ExploreCfg {
                     focus: f, depth: d, ops,
                     backends: vec![(Kind::Full, 2), (Kind::Optimal, 2), (Kind::Pm, 1)],
-                    nodedup_len: 1, max_len: 2, positions: all(d), full_obs: true, label: format!("depth{d}.ranges"),
+                    nodedup_len: 1, max_len: 2, positions: all(d), full_obs: true, allow: None, label: format!("depth{d}.ranges"),
                 });
             }
         }
@@ -1693,7 +1711,7 @@ impl TreeProp {
                 plans.push(ExploreCfg {
                     focus: f, depth: d, ops,
                     backends: vec![(Kind::Full, 4), (Kind::Optimal, 4), (Kind::Pm, if q { 1 } else { 2 })],
-                    nodedup_len: 1, max_len: if q && d == 5 && f == Focus::C07 { 3 } else { 4 }, positions: all(d), full_obs: true, label: format!("depth{d}.rewrite"),
+                    nodedup_len: 1, max_len: if q && d == 5 && f == Focus::C07 { 3 } else { 4 }, positions: all(d), full_obs: true, allow: None, label: format!("depth{d}.rewrite"),
                 });
             }
         }
@@ -1727,7 +1745,93 @@ impl TreeProp {
             plans.push(ExploreCfg {
                 focus: f, depth: 10, ops,
                 backends: vec![(Kind::Full, 3), (Kind::Optimal, 3), (Kind::Pm, 2), (Kind::Rln, if q { 1 } else { 2 })],
-                nodedup_len: 1, max_len: if q { 2 } else { 3 }, positions: pos, full_obs: false, label: "depth10.boundaries".into(),
+                nodedup_len: 1, max_len: if q { 2 } else { 3 }, positions: pos, full_obs: false, allow: None, label: "depth10.boundaries".into(),
+            });
+        }
+        // depth 7: removal lists whose members are far apart (several subtrees away from each other), some of them
+        // at or beyond the leaf count; depth 5: removal lists and range writes that are long runs of consecutive
+        // positions (16, 17, 24, all 32), reaching past the leaf count
+        if with_batch {
+            let pat = |n: u64| -> Vec<u8> { (0..n).map(|k| if k % 2 == 0 { 1 } else { 2 }).collect() };
+            let mut ops = vec![TreeOp::Range(0, pat(20)), TreeOp::Set(3, 1), TreeOp::Set(100, 2), TreeOp::Delete(11), TreeOp::Append(1)];
+            for r in [vec![3u64, 100], vec![3, 40], vec![0, 127], vec![19, 20], vec![3, 11, 19], vec![100, 3], vec![3, 50, 100], vec![64, 96]] {
+                ops.push(TreeOp::Batch(0, vec![], r));
+            }
+            plans.push(ExploreCfg {
+                focus: f, depth: 7, ops,
+                backends: vec![(Kind::Full, 3), (Kind::Optimal, 3), (Kind::Pm, if q { 2 } else { 3 }), (Kind::Rln, 2)],
+                nodedup_len: 1, max_len: 3, positions: all(7), full_obs: true, allow: None, label: "depth7.sparse-removals".into(),
+            });
+            let run = |a: u64, b: u64| -> Vec<u64> { (a..b).collect() };
+            let mut ops = vec![TreeOp::Range(0, pat(4)), TreeOp::Set(30, 1), TreeOp::Append(2), TreeOp::Delete(5)];
+            for (a, b) in [(0u64, 16u64), (2, 18), (0, 17), (8, 32), (0, 32), (15, 32)] {
+                ops.push(TreeOp::Batch(0, vec![], run(a, b)));
+            }
+            ops.push(TreeOp::Batch(0, pat(16), vec![]));
+            ops.push(TreeOp::Batch(3, pat(17), vec![]));
+            if with_plain {
+                ops.push(TreeOp::Range(0, pat(16)));
+                ops.push(TreeOp::Range(3, pat(17)));
+            }
+            plans.push(ExploreCfg {
+                focus: f, depth: 5, ops,
+                backends: vec![(Kind::Full, 3), (Kind::Optimal, 3), (Kind::Pm, if q { 2 } else { 3 }), (Kind::Rln, 2)],
+                nodedup_len: 1, max_len: 3, positions: all(5), full_obs: true, allow: None, label: "depth5.long-runs".into(),
+            });
+        }
+        // depth 16: ONE long operation per history (a range write, batch write or removal run of 2^k + 1 positions,
+        // k up to 15: block sizes at which an implementation may switch strategy), before it one short operation that
+        // puts the leaf count above or below the range, after it one short operation; sparse observation around
+        // both ends of the range
+        if f != Focus::C07 || !q {
+            let d = 16usize;
+            let c = 1u64 << d;
+            let pat = |n: u64| -> Vec<u8> { (0..n).map(|k| if k % 2 == 0 { 1 } else { 2 }).collect() };
+            let lens: Vec<u64> = if q { vec![17, 257, 4097, 16385] } else { (4..=15).flat_map(|k| [1u64 << k, (1u64 << k) + 1]).chain([c]).collect() };
+            let mut ops = vec![TreeOp::Set(40000, 1), TreeOp::Append(2)];
+            if with_plain {
+                ops.push(TreeOp::Range(0, pat(8)));
+            } else {
+                ops.push(TreeOp::Batch(0, pat(8), vec![]));
+            }
+            let mut pos: Vec<u64> = vec![0, 1, 2, 3, 7, 8, 9, 40000, 40001, c - 1];
+            for l in &lens {
+                if with_plain {
+                    ops.push(TreeOp::Range(0, pat(*l)));
+                    if 1 + *l <= c {
+                        ops.push(TreeOp::Range(1, pat(*l)));
+                    }
+                }
+                if with_batch {
+                    ops.push(TreeOp::Batch(0, pat(*l), vec![]));
+                    ops.push(TreeOp::Batch(0, vec![], (0..*l).collect()));
+                    if 3 + *l <= c {
+                        ops.push(TreeOp::Batch(0, vec![], (3..3 + *l).collect()));
+                    }
+                }
+                for x in [*l - 1, *l, *l + 1, *l + 2, *l + 3] {
+                    if x < c {
+                        pos.push(x);
+                    }
+                }
+            }
+            pos.sort();
+            pos.dedup();
+            fn long_op(o: &TreeOp) -> bool {
+                match o {
+                    TreeOp::Range(_, v) => v.len() > 8,
+                    TreeOp::Batch(_, v, r) => v.len() > 8 || r.len() > 8,
+                    _ => false,
+                }
+            }
+            fn one_long(hist: &[TreeOp], op: &TreeOp) -> bool {
+                let had = hist.iter().any(long_op);
+                if long_op(op) { !had && hist.len() <= 1 } else { hist.is_empty() || had }
+            }
+            plans.push(ExploreCfg {
+                focus: f, depth: d, ops,
+                backends: vec![(Kind::Full, 3), (Kind::Optimal, 3), (Kind::Pm, 3), (Kind::Rln, 2)],
+                nodedup_len: 1, max_len: 3, positions: pos, full_obs: false, allow: Some(one_long), label: "depth16.one-long-operation".into(),
             });
         }
         // depth 20: position alphabet, sparse observation
@@ -1775,7 +1879,7 @@ impl TreeProp {
             plans.push(ExploreCfg {
                 focus: f, depth: 20, ops: light,
                 backends: vec![(Kind::Optimal, 3), (Kind::Pm, if q { 2 } else { 3 }), (Kind::Rln, 2)],
-                nodedup_len: 1, max_len: if q { 2 } else { 3 }, positions: pos.clone(), full_obs: false, label: "depth20.positions".into(),
+                nodedup_len: 1, max_len: if q { 2 } else { 3 }, positions: pos.clone(), full_obs: false, allow: None, label: "depth20.positions".into(),
             });
             if !far.is_empty() {
                 let mut fops = far;
@@ -1784,7 +1888,7 @@ impl TreeProp {
                 plans.push(ExploreCfg {
                     focus: f, depth: 20, ops: fops,
                     backends: vec![(Kind::Optimal, 2), (Kind::Pm, 1), (Kind::Rln, 1)],
-                    nodedup_len: 1, max_len: 2, positions: pos, full_obs: false, label: "depth20.far-offset-ranges".into(),
+                    nodedup_len: 1, max_len: 2, positions: pos, full_obs: false, allow: None, label: "depth20.far-offset-ranges".into(),
                 });
             }
         }
